@@ -6,7 +6,7 @@
 (* Contract: the process started and received exactly the declared words; a   *)
 (* test driver received one argument per child which sh splits into the       *)
 (* child's words.                                                             *)
-EXTENDS ShLang, Json, IOUtils
+EXTENDS ShLang, NinjaLang, Json, IOUtils
 Traces == JsonDeserialize(IOEnv.TRACE_FILE)
 VARIABLES t, l
 tvars == <<t, l>>
@@ -22,8 +22,10 @@ TraceNext ==
      /\ Need(\A k \in 1..Len(e.nested) : ShWords(e.nested[k].arg) = e.nested[k].child,
              "DriverArgumentSplitsIntoChildWords", e.nested)
      \* environment-model cross-check (not a verdict): does ShLang agree with the real sh?
-     /\ (e.cmdline # <<>> /\ ShOk(ShWords(e.cmdline)) /\ ShWords(e.cmdline) # e.argv
+     /\ (e.cmdline # <<>> /\ e.argv # <<>> /\ ShOk(ShWords(e.cmdline)) /\ ShWords(e.cmdline) # e.argv
            => Say(<<"INFO", "ENV-MODEL-MISMATCH", Traces[t].id>>))
+     \* C02: does the reference evaluator agree with NinjaLang on this build statement's binding?
+     /\ (e.nj_text # <<>> /\ NjValue(e.nj_text) # e.nj_cmd => Say(<<"INFO", "ENV-MODEL-MISMATCH", Traces[t].id>>))
   /\ l' = l + 1 /\ UNCHANGED t
 TraceSpec == TraceInit /\ [][TraceNext]_tvars
 =============================================================================
